@@ -70,6 +70,19 @@ def _ret_exprs(f):
     return [n.value for n in f.body_nodes() if isinstance(n, ast.Return) and n.value is not None]
 
 
+def _through_temp(f, e, depth=3):
+    """The expression a returned local stands for when it has exactly one reaching definition (`x = <expr>; return x`)."""
+    from ..dataflow import reaching_defs
+
+    while depth and isinstance(e, ast.Name):
+        ds = reaching_defs(f, e.id, e) if getattr(e, "_parent", None) is not None else []
+        if len(ds) == 1 and ds[0].kind == "assign" and ds[0].index is None and ds[0].value is not None:
+            e, depth = ds[0].value, depth - 1
+        else:
+            break
+    return e
+
+
 def r1(ctx):
     p = ctx.prog
     # create_command: sources = env values, workdir; payload = command words, env keys (identifiers)
@@ -359,7 +372,7 @@ def _reader_facts(ctx, f):
 def r4(ctx):
     p = ctx.prog
     f = p.func(f"{SH}._build_shell_command")
-    ret = _ret_exprs(f)[0]
+    ret = _through_temp(f, _ret_exprs(f)[0])
     ok = False
     if isinstance(ret, ast.JoinedStr):
         parts = []
@@ -397,8 +410,9 @@ def r4(ctx):
     ctx.ob("R4", "the captured output is everything before the marker", okfo, func=f, node=f.node, instance="framing:output-slice")
     rets = [n for n in f.body_nodes() if isinstance(n, ast.Return) and n.value is not None]
     okr = False
-    if len(rets) == 1 and isinstance(rets[0].value, ast.Tuple) and len(rets[0].value.elts) == 2:
-        a, b = rets[0].value.elts
+    rv = _through_temp(f, rets[0].value) if len(rets) == 1 else None
+    if isinstance(rv, ast.Tuple) and len(rv.elts) == 2:
+        a, b = rv.elts
         from ..dataflow import origins as _or
 
         oa = [unparse(x) for x in _or(f, a)]
@@ -415,10 +429,13 @@ def r5(ctx):
     procs = vars_from(f, lambda e: is_call(e, "create_subprocess_exec"))
     PROC = procs[0] if procs else "proc"
     waits = [n for n in g.nodes.values() if any(isinstance(c.func, ast.Attribute) and c.func.attr == "wait" and unparse(c.func.value) == PROC for c in n.calls())]
-    tests = [n for n in g.nodes.values() if n.kind == "test" and unparse(n.ast) == "capture_output"]
+    from ..facts import edge_for, region
+
+    cap = lambda a, v: v and unparse(a) == "capture_output"  # noqa: E731
+    tests = [n for n in g.nodes.values() if n.kind == "test" and n.ast is not None and edge_for(n.ast, cap)]
     ctx.require(bool(tests), "C25.R5: capture_output branch not found")
     t = tests[0]
-    tb = [b for b, k in g.succ[t.id] if k == "t"]
+    tb = [b for b, k in g.succ[t.id] if k == edge_for(t.ast, cap)]
     on_true = g.reach(tb, include_src=True)
     cids = [c.id for c in comm]
     ok = bool(comm) and all(c in on_true for c in cids)
@@ -433,7 +450,8 @@ def r5(ctx):
            instance="subprocess:communicate", message="with capture_output the pipe is not drained while the process runs: outputs larger than the pipe buffer deadlock")
     rets = [n for n in f.body_nodes() if isinstance(n, ast.Return) and n.value is not None and not (isinstance(n.value, ast.Constant) and n.value.value is None)]
     so = [t[0] for t in tuple_vars_from(f, lambda e: "communicate" in unparse(e)) if t and t[0]]
-    okr = len(rets) == 1 and isinstance(rets[0].value, ast.Tuple) and unparse(rets[0].value.elts[1]) == f"{PROC}.returncode" and bool(so) and so[0] in unparse(rets[0].value.elts[0])
+    rv = _through_temp(f, rets[0].value) if len(rets) == 1 else None
+    okr = isinstance(rv, ast.Tuple) and len(rv.elts) == 2 and unparse(rv.elts[1]) == f"{PROC}.returncode" and bool(so) and so[0] in unparse(rv.elts[0])
     ctx.ob("R5", "stdout and the real return code are returned", okr, func=f, node=f.node, instance="subprocess:return")
     # PIPE iff capture_output
     call = [c for c in f.calls() if isinstance(c.func, ast.Attribute) and c.func.attr == "create_subprocess_exec"]
@@ -441,7 +459,14 @@ def r5(ctx):
     if call:
         kw = {k.arg: k.value for k in call[0].keywords}
         so = kw.get("stdout")
-        okp = isinstance(so, ast.IfExp) and unparse(so.test) == "capture_output" and unparse(so.body).endswith("PIPE")
+        from ..dataflow import defs_of as _defs2
+
+        cands = [so] if isinstance(so, ast.IfExp) else ([d.value for d in _defs2(f, so.id) if d.value is not None] if isinstance(so, ast.Name) else [])
+        for o in cands:
+            if isinstance(o, ast.IfExp):
+                k = edge_for(o.test, cap)
+                arm = o.body if k == "t" else (o.orelse if k == "f" else None)
+                okp = okp or (arm is not None and unparse(arm).endswith("PIPE"))
     ctx.ob("R5", "stdout is a pipe exactly when the output is captured", okp, func=f, node=f.node, instance="subprocess:pipe")
     # timeouts honoured on both branches
     wf = [c for c in f.calls() if unparse(c.func) == "asyncio.wait_for"]
